@@ -34,15 +34,20 @@ Ref(wp, ev) ==
   ELSE IF ev.a = "deliver" THEN (IF HasMsg(wp, ev.mid) THEN Deliver(wp, ev.mid, ev.dup) ELSE Unk(wp))
   ELSE Unk(wp)
 
+\* the permissive reference: the same call where no flag, payability answer, role or gas figure can refuse it
+Permissive(wp, ev) ==
+  LET w1 == AllPayable(Unpaused(Unfrozen(wp))) IN
+  IF ev.fn \in RoleGated /\ NArgs(ev) >= 1 /\ ev.caller \in Accts(wp) THEN WithAllRoles(w1, ev.caller, Arg(ev,1).h) ELSE w1
+RefPerm(wp, ev) == Ref(Permissive(wp, ev), IF ev.a = "exec" /\ ev.gascls = "" THEN [ev EXCEPT !.gas = 900000000] ELSE ev)
 RefOk(wp, ev) == LET r2 == Ref(wp, ev) IN ~r2.unk /\ r2.ok
 
 \* all step predicates by name
 StepPred(name, wp, ev, w2, hp, r) ==
-  CASE name = "P01_Exact" -> P01_Exact(wp, ev, w2, hp, r)
+  CASE name = "P01_Exact" -> P01_Exact(wp, ev, w2, hp, r, RefPerm(wp, ev))
     [] name = "P01_DeliveryAccepted" -> P01_DeliveryAccepted(wp, ev, w2, hp, r)
     [] name = "P01_RefundRestores" -> P01_RefundRestores(wp, ev, w2, hp, r)
     [] name = "P01_FailKeeps" -> P01_FailKeeps(wp, ev, w2, hp, r)
-    [] name = "P02_Delta" -> P02_Delta(wp, ev, w2, hp, r)
+    [] name = "P02_Delta" -> P02_Delta(wp, ev, w2, hp, r, RefPerm(wp, ev))
     [] name = "P02_Others" -> P02_Others(wp, ev, w2, hp, r)
     [] name = "P02_NoOverdraft" -> P02_NoOverdraft(wp, ev, w2, hp, r)
     [] name = "P03_Authority" -> P03_Authority(wp, ev, w2, hp, r)
@@ -53,7 +58,7 @@ StepPred(name, wp, ev, w2, hp, r) ==
     [] name = "P04_FlagOnly" -> P04_FlagOnly(wp, ev, w2, hp, r)
     [] name = "P04_Restores" -> P04_Restores(wp, ev, w2, hp, r)
     [] name = "P05_Protected" -> P05_Protected(wp, ev, w2, hp, r)
-    [] name = "P05_KVExact" -> P05_KVExact(wp, ev, w2, hp, r)
+    [] name = "P05_KVExact" -> P05_KVExact(wp, ev, w2, hp, r, RefPerm(wp, ev))
     [] name = "P05_Frame" -> P05_Frame(wp, ev, w2, hp, r)
     [] name = "P06_NoGasCreated" -> P06_NoGasCreated(wp, ev, w2, hp, r)
     [] name = "P06_Underfunded" -> P06_Underfunded(wp, ev, w2, hp, r)
